@@ -13,8 +13,13 @@ import drv_selftest
 
 def sany():
     bad = 0
+    import shutil
+    tmp = os.path.join(core.WORK, "SELFTEST", "sany_tmp")          # SANY unpacks the standard modules here, not under /tmp
+    os.makedirs(tmp, exist_ok=True)
+    import atexit
+    atexit.register(shutil.rmtree, tmp, True)
     for p in sorted(glob.glob(os.path.join(core.SPEC, "*.tla"))):
-        r = subprocess.run(["java", "-cp", core.JAR, "tla2sany.SANY", p], cwd=core.SPEC,
+        r = subprocess.run(["java", "-Djava.io.tmpdir=" + tmp, "-cp", core.JAR, "tla2sany.SANY", p], cwd=core.SPEC,
                            stdout=subprocess.PIPE, stderr=subprocess.STDOUT)
         out = r.stdout.decode("utf-8", "replace")
         if r.returncode != 0 or "*** Errors" in out or "Fatal errors" in out or "Parse Error" in out:
@@ -77,7 +82,8 @@ def main():
             return 2
         open(os.path.join(tmp, "Calendar.tla"), "w").write(broken)
         p = subprocess.run(["apalache-mc", "check", "--init=IndInit", "--inv=IndInv", "--length=1", "--out-dir=" + os.path.join(tmp, "out"),
-                            os.path.join(tmp, "Apa_Calendar.tla")], cwd=tmp, stdout=subprocess.PIPE, stderr=subprocess.STDOUT, timeout=900)
+                            os.path.join(tmp, "Apa_Calendar.tla")], cwd=tmp, stdout=subprocess.PIPE, stderr=subprocess.STDOUT, timeout=900,
+                           env=dict(os.environ, TMPDIR=tmp))
         out = p.stdout.decode("utf-8", "replace")
         if "The outcome is: Error" not in out or "violat" not in out:
             print("Apalache negative self-test FAILED: a leap rule 'divisible by 800' was not refuted\n" + out[-800:])
